@@ -268,7 +268,33 @@ def rule_own_creates_idempotent(ctx):
     ctx.floor("C19.d auto-create statements", n, 1)
 
 
+def rule_temporary_stays_private(ctx):
+    """C19.e: a table created TEMPORARY (fakesnow's own MERGE helper is) reaches the engine TEMPORARY: the rewrite pipeline keeps
+    the property, so concurrent sessions that create a table of that name each get their own."""
+    from ..values import Lst, NodeV
+    from .common import traces
+
+    prog = ctx.prog
+    n = 0
+    for tr in traces(prog, "CREATE TEMPORARY TABLE AS"):
+        if tr.path.outcome != "return":
+            continue
+        n += 1
+        root = tr.transformed
+        props = root.args.get("properties") if isinstance(root, NodeV) else None
+        exprs = props.args.get("expressions") if isinstance(props, NodeV) else None
+        kept = isinstance(exprs, Lst) and any(isinstance(x, NodeV) and x.cls == "TemporaryProperty" for x in exprs.items)
+        ctx.ob("C19.e", "CREATE TEMPORARY TABLE is still TEMPORARY after the rewrite pipeline", kept, "fakesnow/cursor.py",
+               tagof(exprs) if exprs is not None else "no properties")
+        if not kept:
+            ctx.violation("C19.e", "cursor", "FakeSnowflakeCursor._transform", "TEMPORARY property lost in the rewrite pipeline", "fakesnow/cursor.py",
+                          "a CREATE TEMPORARY TABLE reaches the engine without the TEMPORARY property: the table (fakesnow's own MERGE helper "
+                          "`merge_candidates` included) is an ordinary table in the current schema, shared and clobbered by concurrent sessions")
+    ctx.floor("C19.e traces", n, 1)
+
+
 RULES = [
+    ("C19.e", rule_temporary_stays_private, ("quick", "thorough")),
     ("C19.d", rule_own_creates_idempotent, ("quick", "thorough")),
     ("C19.a", rule_check_then_create, ("quick", "thorough")),
     ("C19.b1", rule_handle, ("quick", "thorough")),
